@@ -35,7 +35,10 @@ impl Prop for Offsets {
             return Outcome::fail(kind, d);
         }
         if !run.out.errors.is_empty() {
-            return Outcome::discard("crate-does-not-compile (C13's business)");
+            let mut codes: Vec<String> = run.out.errors.iter().map(|d| d.code.clone()).collect();
+            codes.sort();
+            codes.dedup();
+            return Outcome::discard(&format!("crate-does-not-compile (C13's business): {}", codes.join("+")));
         }
         let nontrivial = st.structs >= 1 && st.named_fields >= 2 && (st.explicit_gap || st.nested_by_value || st.vptr || st.packed_misaligned);
         let mut o = Outcome::pass(nontrivial).class(&format!("width:{}", c.w));
@@ -57,5 +60,5 @@ pub fn props() -> Vec<Box<dyn DynProp>> {
 
 pub fn run(ctx: &mut Ctx) {
     let q = ctx.quick();
-    ctx.run(&Offsets, &Params::new(if q { 800 } else { 40_000 }, 200, 3000).shrink(120));
+    ctx.run(&Offsets, &Params::new(if q { 4000 } else { 120_000 }, 200, 3000).shrink(120));
 }
